@@ -45,7 +45,8 @@ class Gen:
             return ('int', r.choice([0, 1, 2, 3, 5, 7, 10, -1, -4, 100]))
         if ty == 'bool':
             return ('bool', r.random() < 0.5)
-        return ('str', r.choice(['a', 'bc', '', 'x y', 'é', 'q"t', 'n\\l']))
+        # (also literals whose LAST character is an escaped backslash: the closing quote is not part of an escape)
+        return ('str', r.choice(['a', 'bc', '', 'x y', 'é', 'q"t', 'n\\l', 'e\\', '\\']))
 
     def vars_of(self, env, ty):
         return [x for scope in env for x, t in scope.items() if t == ty and x not in self.hidden]
